@@ -12,7 +12,7 @@ name = os.path.basename(seed.rstrip("/"))
 wt = "/tmp/sc-" + name
 env = dict(os.environ, GOFLAGS="-mod=mod", GOPROXY="off", GORDIAN_TEST_TIME_FACTOR="20")
 def sh(cmd, cwd=None, e=None, timeout=3600):
-    r = subprocess.run(cmd, shell=True, cwd=cwd, env=e or env, stdout=subprocess.PIPE, stderr=subprocess.STDOUT, text=True, timeout=timeout)
+    r = subprocess.run(cmd, shell=True, cwd=cwd, env=e or env, stdout=subprocess.PIPE, stderr=subprocess.STDOUT, text=True, errors="replace", timeout=timeout)
     return r.returncode, r.stdout
 sh("git -C /repo worktree remove --force %s" % wt)
 rc, out = sh("git -C /repo worktree add --detach %s HEAD" % wt)
